@@ -14,13 +14,13 @@
    unknown-passage ValueError" is stated through `goto_rec_g unknown` = goto_rec with an arbitrary
    computation `unknown` at that one site (goto_rec is the instance `raise ValueError`,
    StoryWfProofs.goto_rec_is_g): the result does not depend on `unknown`, at any hop of the chain.
-   _partial: (1) it needs the jump targets to be defined PASSAGES, and the validator also lets the
-   reserved name "@join" through for jumps - `validated_jump_to_join_refuted` is the witness, a
-   genuine defect of the compiler reported by harness/c12.py as c12:nav:unknown-passage; (2) it covers
-   the goto chain (goto, jumps at any depth), not yet choose() - a choice target goes through the same
-   goto, with the same proof, but the statement over `choose` is not made here; (3) argument binding
-   (the other half of navigation safety) is the subject of Props/C07.v and of the play-through of
-   harness/c12.py.
+   _partial: (1) it covers the goto chain (goto, jumps at any depth), not yet choose() - a choice target goes
+   through the same goto, with the same proof, but the statement over `choose` is not made here; (2) argument
+   binding (the other half of navigation safety) is the subject of Props/C07.v and of the play-through of
+   harness/c12.py.  Two genuine defects found by harness/c12.py were fixed in /repo and the model follows them:
+   `-> @join` as a JUMP was accepted (fix 3c6eb71: now a diagnostic, jump_to_join_rejected; the former proviso
+   "no jump targets @join" of parse_ok_never_unknown_passage_partial is gone) and an initial passage with a
+   required parameter was accepted (fix 15f0a5b: parse_ok_initial_startable).
    Carried by harness/c12.py only: JSON round trip of the real dict, argument shapes. *)
 From Coq Require Import String Ascii List Bool Arith.
 From Bardic Require Import PyStr Value Compiled Lex ParseBase ParseLine ParseMain ParseProofs.
@@ -83,26 +83,32 @@ Theorem wf_never_unknown_passage_partial : forall orc ctxkeys st,
 Proof. exact wf_never_unknown_passage_lemma. Qed.
 Print Assumptions wf_never_unknown_passage_partial.
 
-(* the same for every story the compiler model returns, provided no jump targets "@join" *)
+(* the same for every story the compiler model returns (no proviso: since fix 3c6eb71 the validator rejects a jump
+   to "@join", so acceptance implies that every jump target is a defined passage) *)
 Theorem parse_ok_never_unknown_passage_partial : forall pp is_call xs lines0 story,
   parse pp is_call xs lines0 = POk story ->
-  (forall k p, In (k, p) (passages story) -> Forall jumps_not_join (content p)) ->
   forall orc ctxkeys unknown fuel spec visited s,
     name_defined story spec ->
     goto_rec_g orc ctxkeys story unknown fuel spec visited s = goto_rec orc ctxkeys story fuel spec visited s.
 Proof. exact parse_ok_never_unknown_lemma. Qed.
 Print Assumptions parse_ok_never_unknown_passage_partial.
 
-(* the proviso is needed: `-> @join` is accepted by the validator and the engine cannot follow it *)
-Theorem validated_jump_to_join_refuted :
-  exists pp lines st,
-    parse pp (fun _ => true) no_extractors lines = POk st /\
-    snd (goto null_orc [] st (initial st) (mkNS (empty_core []) [] [])) = Exc ValueError.
-Proof.
-  exists (mkPyparse (fun _ => true) (fun _ => Some (0, []))), [":: Start"; "hi<>"; "-> @join"], join_jump_story.
-  split; [exact join_jump_accepted|exact join_jump_unknown].
-Qed.
-Print Assumptions validated_jump_to_join_refuted.
+(* `-> @join` as a jump is a compile-time diagnostic; what the engine would do with such a story if it were
+   accepted is the ValueError of join_jump_unknown (the defect F12a, fixed) *)
+Theorem jump_to_join_rejected :
+  parse (mkPyparse (fun _ => true) (fun _ => Some (0, []))) (fun _ => true) no_extractors
+        [":: Start"; "hi<>"; "-> @join"] = PDiag (DSyntax "call:jump-to-join" 0) /\
+  snd (goto null_orc [] join_jump_story (initial join_jump_story) (mkNS (empty_core []) [] [])) = Exc ValueError.
+Proof. split; [exact join_jump_rejected|exact join_jump_unknown]. Qed.
+Print Assumptions jump_to_join_rejected.
+
+(* the initial passage of every returned story can be entered without arguments (fix 15f0a5b) *)
+Theorem parse_ok_initial_startable : forall pp is_call xs lines0 story,
+  parse pp is_call xs lines0 = POk story ->
+  exists p, lookup (initial story) (passages story) = Some p /\
+            existsb (fun q => match pdefault q with None => true | Some _ => false end) (params p) = false.
+Proof. exact parse_ok_initial_startable_lemma. Qed.
+Print Assumptions parse_ok_initial_startable.
 
 (* ---- non-vacuity ---- *)
 
